@@ -274,7 +274,7 @@ _PATHS = {
     'PurePosixPath': pathlib.PurePosixPath, 'PurePath': pathlib.PurePath, 'Path': pathlib.Path,
     'PosixPath': pathlib.PosixPath, 'PathLike': os.PathLike,
 }
-_SUB_BASES = {'int': int, 'float': float, 'str': str}
+_SUB_BASES = {'int': int, 'float': float, 'str': str, 'bytes': bytes}
 
 SPELLINGS = {
     'list': ('List', 'list', 'MutableSequence', 'abcMutableSequence'),
@@ -294,9 +294,9 @@ def _mk_sub(ty):
     ns = {}
     if ty.x.get('picky'):
         # a subclass whose constructor refuses some well-typed values (a port number, a non-blank name)
-        def __new__(cls, v=0 if base is not str else ''):
-            if base is str:
-                if not v or ' ' in v:
+        def __new__(cls, v={str: '', bytes: b''}.get(base, 0)):
+            if base in (str, bytes):
+                if not v or (b' ' if base is bytes else ' ') in v:
                     raise ValueError(f"picky: blank or spaced name {v!r}")
             elif v != v or v < 0:
                 raise ValueError(f"picky: must be non-negative, got {v!r}")
